@@ -2,6 +2,7 @@ package main
 
 import (
 	"bytes"
+	"sync/atomic"
 	"strconv"
 	"context"
 	"fmt"
@@ -20,6 +21,7 @@ type solverCfg struct {
 	workers   int
 	tmp       string
 	keepFiles bool
+	failFast  int
 }
 
 const zeroRowAxioms = "(declare-const zeroRow (Array Int Int))\n(assert (forall ((x Int)) (! (= (select zeroRow x) 0) :pattern ((select zeroRow x)))))\n"
@@ -196,6 +198,13 @@ func dischargeOnce(o *Obl, cfg *solverCfg, idx int, extra ...string) {
 			}
 			if x.v == "sat" {
 				sawSat = true
+				if cfg.failFast > 0 {
+					// quick tier: a model settles it; the other solvers are not waited for
+					o.Secs = time.Since(t0).Seconds()
+					o.Detail = detail
+					o.Verdict = "failed-sat"
+					return
+				}
 			}
 			if x.v == "unsat" {
 				o.Verdict, o.Backend = "discharged", strings.SplitN(x.name, "#", 2)[0]
@@ -241,13 +250,23 @@ func firstLine(s string) string {
 func dischargeAll(obls []*Obl, cfg *solverCfg) {
 	var wg sync.WaitGroup
 	sem := make(chan struct{}, cfg.workers)
+	var failed int32
 	for i, o := range obls {
 		wg.Add(1)
 		go func(i int, o *Obl) {
 			defer wg.Done()
 			sem <- struct{}{}
 			defer func() { <-sem }()
+			// quick tier fails fast: once a few obligations have definitely failed the verdict
+			// of the run is settled; what has not been started is reported as not run
+			if cfg.failFast > 0 && atomic.LoadInt32(&failed) >= int32(cfg.failFast) && o.Expect != "sat" {
+				o.Verdict, o.Detail = "not-run", "skipped: the run had already failed (quick tier stops early)"
+				return
+			}
 			discharge(o, cfg, i)
+			if strings.HasPrefix(o.Verdict, "failed") && !o.shortFirst {
+				atomic.AddInt32(&failed, 1)
+			}
 		}(i, o)
 	}
 	wg.Wait()
